@@ -40,11 +40,11 @@ Qed.
 
 (* C10, the full statement outside the finding classes, from the input alone *)
 Theorem c10_oracle_holds i b snap tr :
-  c10_scope i = true -> c10_known i = false ->
+  c10_scope i = true -> c10_known i = false -> flights_provable i = true ->
   model_run i = Some (b, snap, tr) ->
   b = true /\ boot_oracle i b snap = true /\ Spec.C10.oracle i tr = true.
 Proof.
-  intros Hs Hk H. pose proof Hs as Hs'. unfold c10_scope in Hs'. apply andb_true_iff in Hs' as [Hs' _].
+  intros Hs Hk Hpr H. pose proof Hs as Hs'. unfold c10_scope in Hs'. apply andb_true_iff in Hs' as [Hs' _].
   apply andb_true_iff in Hs' as [Hin _].
   destruct (scope_parts _ Hin) as [Ht [Hst [Hd _]]].
   destruct (bootstrap_synced i Ht Hst Hd (scope_pre _ Hin)) as [st0 [E R]].
@@ -67,42 +67,59 @@ Section Run11.
   Hypothesis Hdfl : defaults_ok opts defaults = true.
   Let names := option_names i.
 
+  Lemma sim_step11_base st m o st' ob :
+    Rel opts defaults st m -> op_ok opts o = true -> c11_op o = true -> plain o = true ->
+    flagged (mon_step opts defaults m o) = false ->
+    m_step names st o = Some (st', ob) -> step_ok opts defaults st m o st' ob.
+  Proof.
+    intros R Hok Hc Hpl Hfl H.
+    destruct o; try discriminate Hc; try discriminate Hpl;
+      try (eapply (sim_step_base opts defaults (in_opts_nodup i Htab) (in_opts_not_hs i Htab) (in_opts_keys_ok i Htab) names eq_refl); eauto; fail).
+    eapply (sim_event i Htab Hdfl names eq_refl); eassumption.
+  Qed.
+
+  Lemma sim_step11 st m o st' ob :
+    Rel opts defaults st m -> op_ok opts o = true -> c11_op o = true -> op_provable o = true ->
+    flagged (mon_step opts defaults m o) = false ->
+    m_step names st o = Some (st', ob) -> step_ok opts defaults st m o st' ob.
+  Proof.
+    intros R Hok Hc Hpr Hfl H. destruct (plain o) eqn:Hpl; [now apply sim_step11_base|].
+    destruct o; try discriminate Hpl. cbn [op_provable] in Hpr.
+    apply (sim_flight opts defaults (in_opts_nodup i Htab) (in_opts_keys_ok i Htab) names eq_refl c11_op sim_step11_base);
+      try assumption.
+    apply (flight_allowed opts c11_op reject during Hok).
+    apply forallb_forall. intros d _. destruct d; reflexivity.
+  Qed.
+
   Theorem sim_run11 : forall ops st m tr,
     Rel opts defaults st m ->
-    forallb (op_ok opts) ops = true -> forallb c11_op ops = true ->
+    forallb (op_ok opts) ops = true -> forallb c11_op ops = true -> forallb op_provable ops = true ->
     flagged (mon_run opts defaults m ops) = false ->
     m_run names st ops = Some tr ->
     spec_run opts defaults (m_st m) ops tr = true.
   Proof.
-    induction ops as [|o ops IH]; intros st m tr R Hok Hc Hfl H; cbn [m_run] in H.
+    induction ops as [|o ops IH]; intros st m tr R Hok Hc Hpr Hfl H; cbn [m_run] in H.
     - inversion H. reflexivity.
     - destruct (m_step names st o) as [[st1 ob]|] eqn:E; [|discriminate].
       destruct (m_run names st1 ops) as [tr'|] eqn:E2; [|discriminate]. inversion H. subst tr.
-      cbn [forallb] in Hok, Hc. apply andb_true_iff in Hok as [Hok1 Hok2]. apply andb_true_iff in Hc as [Hc1 Hc2].
+      cbn [forallb] in Hok, Hc, Hpr. apply andb_true_iff in Hok as [Hok1 Hok2]. apply andb_true_iff in Hc as [Hc1 Hc2].
+      apply andb_true_iff in Hpr as [Hpr1 Hpr2].
       unfold mon_run in Hfl. cbn [fold_left] in Hfl. fold (mon_run opts defaults (mon_step opts defaults m o) ops) in Hfl.
       assert (flagged (mon_step opts defaults m o) = false) as Hfl1.
       { destruct (flagged (mon_step opts defaults m o)) eqn:Ef; [|reflexivity].
         rewrite (mon_run_flag_mono _ _ _ _ Ef) in Hfl. discriminate. }
-      assert (step_ok opts defaults st m o st1 ob) as [Hchk R1].
-      { destruct o; try discriminate Hc1; [| | | | | |
-          eapply (sim_step opts defaults (in_opts_nodup i Htab) (in_opts_not_hs i Htab) (in_opts_keys_ok i Htab) names eq_refl); eauto].
-        - eapply (sim_step opts defaults (in_opts_nodup i Htab) (in_opts_not_hs i Htab) (in_opts_keys_ok i Htab) names eq_refl); eauto.
-        - eapply (sim_step opts defaults (in_opts_nodup i Htab) (in_opts_not_hs i Htab) (in_opts_keys_ok i Htab) names eq_refl); eauto.
-        - eapply (sim_step opts defaults (in_opts_nodup i Htab) (in_opts_not_hs i Htab) (in_opts_keys_ok i Htab) names eq_refl); eauto.
-        - eapply (sim_step opts defaults (in_opts_nodup i Htab) (in_opts_not_hs i Htab) (in_opts_keys_ok i Htab) names eq_refl); eauto.
-        - eapply (sim_step opts defaults (in_opts_nodup i Htab) (in_opts_not_hs i Htab) (in_opts_keys_ok i Htab) names eq_refl); eauto.
-        - eapply (sim_event i Htab Hdfl names eq_refl); eassumption. }
+      destruct (sim_step11 _ _ _ _ _ R Hok1 Hc1 Hpr1 Hfl1 E) as [Hchk R1].
       cbn [spec_run]. rewrite Hchk. cbn [andb]. rewrite <- mon_step_st. eapply IH; eassumption.
   Qed.
 End Run11.
 
 (* THE theorem for C11: attach, then any history of events, edits, saves and reads *)
 Theorem c11_oracle_holds i b snap tr :
-  c11_scope i = true -> c11_known i = false -> forallb c11_op (i_ops i) = true ->
+  c11_scope i = true -> c11_known i = false -> forallb c11_op (i_ops i) = true -> flights_provable i = true ->
   model_run i = Some (b, snap, tr) ->
   b = true /\ Spec.C11.oracle i b snap tr = true.
 Proof.
-  intros Hs Hk Hc H. unfold c11_scope in Hs. apply andb_true_iff in Hs as [Hs Hcp]. apply negb_true_iff in Hcp.
+  intros Hs Hk Hc Hpr H. unfold c11_scope in Hs. apply andb_true_iff in Hs as [Hs Hcp]. apply negb_true_iff in Hcp.
   destruct (scope_parts _ Hs) as [Ht [Hst [Hd Hops]]].
   unfold c11_known in Hk.
   destruct (bootstrap_synced i Ht Hst Hd (scope_pre _ Hs)) as [st0 [E R]].
@@ -113,6 +130,6 @@ Proof.
   inversion H. subst b snap tr. split; [reflexivity|].
   unfold Spec.C11.oracle, full_oracle. apply second_world. apply andb_true_iff. split; [exact Hok|].
   unfold cfg_oracle_from.
-  apply (sim_run11 i Ht Hd (i_ops i) st0 (mon0 i) tr' R Hops Hc); [|exact Er].
+  apply (sim_run11 i Ht Hd (i_ops i) st0 (mon0 i) tr' R Hops Hc Hpr); [|exact Er].
   change (flagged (mon_of i) = false). rewrite c10_known_flagged, Hk, Hcp. reflexivity.
 Qed.
